@@ -121,8 +121,12 @@ fn translate_block(
                 capstone::ppc_insn::PPC_INS_BCTR => {
                     semantics::bctr(&mut instruction_graph, &instruction)
                 }
-                capstone::ppc_insn::PPC_INS_BDNZL => nop(&mut instruction_graph),
-                capstone::ppc_insn::PPC_INS_BLR => nop(&mut instruction_graph),
+                capstone::ppc_insn::PPC_INS_BDNZL => {
+                    semantics::bdnzl(&mut instruction_graph, &instruction)
+                }
+                capstone::ppc_insn::PPC_INS_BLR => {
+                    semantics::blr(&mut instruction_graph, &instruction)
+                }
                 capstone::ppc_insn::PPC_INS_CMPWI => {
                     semantics::cmpwi(&mut instruction_graph, &instruction)
                 }
@@ -208,7 +212,7 @@ fn translate_block(
 
                     break;
                 }
-                capstone::ppc_insn::PPC_INS_BCTR => {
+                capstone::ppc_insn::PPC_INS_BCTR | capstone::ppc_insn::PPC_INS_BLR => {
                     instruction_graph.set_address(Some(instruction.address));
                     block_graphs.push((instruction.address, instruction_graph));
 
@@ -229,7 +233,7 @@ fn translate_block(
                     }
                     break;
                 }
-                capstone::ppc_insn::PPC_INS_BLR | capstone::ppc_insn::PPC_INS_BL => {
+                capstone::ppc_insn::PPC_INS_BL => {
                     instruction_graph.set_address(Some(instruction.address));
                     block_graphs.push((instruction.address, instruction_graph));
                 }
